@@ -66,7 +66,7 @@ CHECKS.update({
 CHECKS.update({
  "C08": ("model_checking",
          "exhaustive schedule enumeration (every linear extension of the ninja graph driven one edge at a time, with strace footprints and sleep-set reduction) + deviation-bounded lattice over argument order, set iteration orders (hash seeds searched until every order is realised), -jN, build/working/source directories",
-         "Real `nanoemoji` command with SOURCE_DATE_EPOCH fixed: all permutations of the arguments, one hash seed per iteration order of the path / glyph-name sets (all n! orders realised and reported), ninja -j1/-j2/-j16, three build-dir and cwd placements, moved source dir, relative arguments, TOML glob, for a vector, an OT-SVG and a bitmap format; every linear extension of the 2-source (quick) / 3-source (thorough) graph executed through `ninja -j1 <target>` (the harness checks that exactly one edge runs per call); one sha256 per format.",
+         "Real `nanoemoji` command with SOURCE_DATE_EPOCH fixed: all permutations of the arguments, one hash seed per iteration order of the path / glyph-name sets (all n! orders realised and reported), ninja -j1/-j2/-j16, three build-dir and cwd placements, moved source dir, relative arguments, TOML glob, for a vector, an OT-SVG and a bitmap format; both orders of two configuration files; a two-axis variable font under 4 (thorough 8) hash seeds; every linear extension of the 2-source (quick) / 3-source (thorough) graph executed through `ninja -j1 <target>` (the harness checks that exactly one edge runs per call); one sha256 per format.",
          "Only str/Path-keyed sets depend on PYTHONHASHSEED (Color/int/tuple hashes do not). Sources from several directories in different relative order are outside the statement.",
          "DESIGN.md section 6, C08"),
  "C09": ("model_checking",
